@@ -58,6 +58,9 @@ type history struct {
 	// until the consumer has seen Scan return false: a cancellation from another
 	// goroutine must end the Scan in progress although the reader is parked.
 	Stalled bool
+	// PreCancelled: the context is cancelled BEFORE the scanner is created; the
+	// history's own stop comes on top of that.
+	PreCancelled bool
 }
 
 func (h history) name() string {
@@ -73,6 +76,9 @@ func (h history) name() string {
 	}
 	if h.Stalled {
 		d += " stalled-input"
+	}
+	if h.PreCancelled {
+		d += " context-cancelled-before-New"
 	}
 	return fmt.Sprintf("%s%s procs=%d scans=%d headerAt=%d stop=%s post=%s", h.Format, d, h.Procs, h.K, h.HeaderAt, stopNames[h.Stop], h.Post)
 }
@@ -176,6 +182,9 @@ func scenario(h history, bound int) vexplore.Scenario {
 				ctx, cancel := vsched.WithCancel(nil)
 				if h.NilCtx {
 					ctx = nil
+				}
+				if h.PreCancelled {
+					cancel()
 				}
 				var s scanner
 				var ps *osmpbf.Scanner
@@ -355,7 +364,7 @@ func scenario(h history, bound int) vexplore.Scenario {
 				}
 				// reference machine for the calls after the stop
 				closed := h.Stop == stopClose || h.Stop == stopCancelThenClose || h.Stop == stopCloseThenCancel
-				cancelled := h.Stop != stopClose
+				cancelled := h.Stop != stopClose || h.PreCancelled
 				if h.Stop == stopCancelOther {
 					closed = false
 				}
@@ -529,6 +538,14 @@ func main() {
 		// when everything else is parked on the stalled read)
 		for _, p := range []int{1, 2} {
 			scs = append(scs, scenario(history{Format: "pbf", Procs: p, K: 0, HeaderAt: -1, Stop: stopCancelOther, Post: "SE", Stalled: true}, 1))
+		}
+		// family R: the context is already cancelled when the scanner is created
+		for _, stop := range []int{stopCancel, stopClose} {
+			for _, p := range []int{1, 2} {
+				scs = append(scs, scenario(history{Format: "pbf", Procs: p, K: 0, HeaderAt: -1, Stop: stop, Post: "SECSEH", PreCancelled: true}, 1))
+				scs = append(scs, scenario(history{Format: "pbf", Procs: p, K: 0, HeaderAt: -1, Stop: stop, Post: "HSE", PreCancelled: true}, 1))
+			}
+			scs = append(scs, scenario(history{Format: "xml", Procs: 1, K: 0, HeaderAt: -1, Stop: stop, Post: "SECSE", PreCancelled: true}, 1))
 		}
 		// family N: nil context, stopped by Close
 		for _, k := range []int{0, 1, 3, N + 1} {
